@@ -355,6 +355,9 @@ def block_aligned_batches_rule(ctx, prog, R9):
         for i, bl in enumerate(b.blocks):
             t = bl['term']
             if t['k'] == 'switch' and not bl['cleanup'] and t['discr']['k'] != 'const':
+                # `match hint { 0 => .., n => .. }`: a switch on the integer itself with an arm for 0
+                if not t.get('adt') and t.get('ty') not in ('bool',) and any(str(v) == '0' for v, _ in t['targets']):
+                    zero_tests.append(i)
                 for x in origin_locals(b, t['discr']['pl']['l'], depth=3):
                     for _, kind, payload in local_defs(b, x):
                         if kind == 'assign' and payload.get('rv') == 'binop' and payload['op'] in ('Eq', 'Ne', 'Gt', 'Lt') and \
